@@ -253,7 +253,16 @@ func builtVariables(b *Build) (map[string][]string, error) {
 }
 
 func c08Configs() []Config {
-	return c04Configs() // mode does not change names: 30 configurations, exhaustive
+	// mode does not change names: 30 configurations, exhaustive
+	var res []Config
+	for _, d := range allDists {
+		for _, av := range primaryAV {
+			for _, f := range []bool{false, true} {
+				res = append(res, Config{Dist: d, ABI: av.ABI, Version: av.Ver, Full: f})
+			}
+		}
+	}
+	return res
 }
 
 func TestC08_Builds(t *testing.T) {
